@@ -183,7 +183,11 @@ func runNative(g Group, pkgName string, harnesses []string, cases []nativeCase, 
 	}
 	cmdline := "cd " + repoDir + " && go " + strings.Join(args, " ")
 	if got < len(cases) {
-		return res, cmdline, fmt.Errorf("native run produced %d of %d results (err=%v):\n%s", got, len(cases), err, tail(out.String(), 40))
+		note := ""
+		if strings.Contains(out.String(), "test timed out") {
+			note = " [test timed out after " + nativeTimeout + "]"
+		}
+		return res, cmdline, fmt.Errorf("native run produced %d of %d results%s (err=%v):\n%s", got, len(cases), note, err, tail(out.String(), 40))
 	}
 	return res, cmdline, nil
 }
